@@ -1,7 +1,10 @@
 /-
-  C07 — the collapse oracle holds of the model on EVERY tree whose root is not a tip, without
-  `removeRoot` (single-child nodes allowed): protected branches that meet the criterion are the
-  OPTIONAL part of the oracle, and the model keeps all of them.
+  C07 — the collapse oracle `collapseOK` (Spec/C07.lean) holds of the model, on every tree.
+
+  The oracle is written with the DEFINITE / AMBIGUOUS readings of the criterion (an absent length is
+  ambiguous); the model follows the code's sentinel reading `Crit.holds` = definite ∨ ambiguous.  What the
+  model leaves of one branch of the input (`outE`) is: its mandatory key if it has one, plus possibly
+  some of its optional keys — which is what the oracle accepts.
 -/
 import Gotree.Lemmas.C07Oracle
 import Gotree.Lemmas.C07Single
@@ -9,23 +12,119 @@ import Gotree.Lemmas.C07Single
 namespace Gotree.C07
 open Gotree
 
-theorem filterMap_split_perm {α γ : Type} (g m o : α → Option γ)
-    (h : ∀ x, (g x).toList = (m x).toList ++ (o x).toList) :
-    ∀ l : List α, (l.filterMap g).Perm (l.filterMap m ++ l.filterMap o)
-  | [] => by simp
-  | a :: r => by
-    have ih := filterMap_split_perm g m o h r
-    have ha := h a
-    cases hg : g a <;> cases hm : m a <;> cases ho : o a <;> simp [hg, hm, ho] at ha
-    · simpa [List.filterMap_cons, hg, hm, ho] using ih
-    · subst ha
-      simp only [List.filterMap_cons, hg, hm, ho]
-      exact (ih.cons _).trans List.perm_middle.symm
-    · subst ha
-      simp only [List.filterMap_cons, hg, hm, ho, List.cons_append]
-      exact ih.cons _
+/- ## multisets -/
 
-/-- tuple of an entry, with the protection flag -/
+theorem msub_of_perm_sublist {α : Type} [BEq α] [LawfulBEq α] :
+    ∀ (a l b : List α), a.Perm l → l.Sublist b → msub a b = true
+  | [], _, _, _, _ => rfl
+  | x :: r, l, b, hp, hs => by
+    have hx : x ∈ b := hs.subset (hp.subset List.mem_cons_self)
+    have hr : r.Perm (l.erase x) := by
+      have := hp.erase x
+      rwa [List.erase_cons_head] at this
+    simp only [msub, Bool.and_eq_true]
+    exact ⟨List.contains_iff_mem.mpr hx, msub_of_perm_sublist r _ _ hr (hs.erase x)⟩
+
+theorem filterMap_split_flat {α γ : Type} (g m : α → Option γ) (k : α → List γ) :
+    ∀ l : List α, (∀ x ∈ l, (g x).toList = (m x).toList ++ k x) →
+      (l.filterMap g).Perm (l.filterMap m ++ l.flatMap k)
+  | [], _ => by simp
+  | a :: r, h => by
+    have ih := filterMap_split_flat g m k r (fun x hx => h x (List.mem_cons_of_mem _ hx))
+    have ha := h a List.mem_cons_self
+    have e1 : (a :: r).filterMap g = (g a).toList ++ r.filterMap g := by
+      cases hg : g a <;> simp [List.filterMap_cons, hg]
+    have e2 : (a :: r).filterMap m = (m a).toList ++ r.filterMap m := by
+      cases hm : m a <;> simp [List.filterMap_cons, hm]
+    rw [e1, e2, ha, List.flatMap_cons]
+    simp only [List.append_assoc]
+    refine List.Perm.append_left _ ?_
+    refine (List.Perm.append_left _ ih).trans ?_
+    exact (List.perm_append_comm_assoc _ _ _)
+
+theorem flatMap_sublist {α γ : Type} (k o : α → List γ) :
+    ∀ l : List α, (∀ x ∈ l, (k x).Sublist (o x)) → (l.flatMap k).Sublist (l.flatMap o)
+  | [], _ => by simp
+  | a :: r, h => by
+    simp only [List.flatMap_cons]
+    exact (h a List.mem_cons_self).append (flatMap_sublist k o r (fun x hx => h x (List.mem_cons_of_mem _ hx)))
+
+/- ## what the model leaves of one branch -/
+
+theorem holds_eq_definite_or_ambiguous (crit : Crit) (e : Ent) :
+    crit.holds e = (crit.definite e || crit.ambiguous e) := by
+  cases crit with
+  | len l =>
+    simp only [Crit.holds, Crit.definite, Crit.ambiguous]
+    by_cases h : e.len = NIL
+    · simp [h]
+    · have : (e.len == NIL) = false := by simpa using h
+      simp [this, h]
+  | sup s => simp [Crit.definite, Crit.ambiguous]
+  | depth mn mx => simp [Crit.definite, Crit.ambiguous]
+  | ids l => simp [Crit.definite, Crit.ambiguous]
+
+theorem definite_ambiguous_excl (crit : Crit) (e : Ent) : crit.ambiguous e = true → crit.definite e = false := by
+  cases crit with
+  | len l =>
+    simp only [Crit.definite, Crit.ambiguous, Bool.and_eq_true, beq_iff_eq]
+    intro h; simp [h.1]
+  | sup s => simp [Crit.ambiguous]
+  | depth mn mx => simp [Crit.ambiguous]
+  | ids l => simp [Crit.ambiguous]
+
+/-- what is left of a branch of the input, as the model (= the code) treats it; `rr` = `removeRoot` -/
+def outE (crit : Crit) (rt rr : Bool) (e : Ent) : Option Key :=
+  if e.tip then some (if rt && crit.holds e then e.key0 else e.key)
+  else if crit.holds e && !(e.prot && !rr) then none else some e.key
+
+/-- the optional keys the model keeps -/
+def keptKeys (crit : Crit) (rt rr : Bool) (e : Ent) : List Key :=
+  if e.tip then (if rt && crit.ambiguous e then [e.key0] else [])
+  else if crit.holds e && (e.prot && !rr) then [e.key] else []
+
+theorem outE_split (crit : Crit) (rt rr : Bool) (e : Ent) :
+    (outE crit rt rr e).toList = (mandKey crit rt e).toList ++ keptKeys crit rt rr e := by
+  unfold outE mandKey keptKeys
+  rw [holds_eq_definite_or_ambiguous]
+  have hx := definite_ambiguous_excl crit e
+  cases ht : e.tip <;> cases hd : crit.definite e <;> cases ha : crit.ambiguous e <;> cases rt <;>
+    cases hp : e.prot <;> cases rr <;> simp_all
+
+theorem keptKeys_sublist (crit : Crit) (rt rr : Bool) (e : Ent) :
+    (keptKeys crit rt rr e).Sublist (optKeys crit rt e) := by
+  unfold keptKeys optKeys
+  rw [holds_eq_definite_or_ambiguous]
+  cases ht : e.tip <;> cases hd : crit.definite e <;> cases ha : crit.ambiguous e <;> cases rt <;>
+    cases hp : e.prot <;> cases rr <;> simp
+
+/-- The general form: if the branches of `a` are, key for key, what the model leaves of the branches of
+    `b` (`outE`), the oracle accepts `a`. -/
+theorem collapseOK_of_out (crit : Crit) (rt rr : Bool) (b a : T)
+    (htips : a.tipNames.Perm b.tipNames) (hname : a.d = b.d)
+    (hperm : ((ents b.tipNames a).map Ent.key).Perm ((ents b.tipNames b).filterMap (outE crit rt rr))) :
+    collapseOK crit rt b a = true := by
+  have h1 : (sortS a.tipNames == sortS b.tipNames) = true := by
+    rw [sortS_perm_eq htips]; exact beq_self_eq_true _
+  have h2 : (a.name == b.name) = true := by
+    unfold T.name; rw [hname]; exact beq_self_eq_true _
+  have hsplit := filterMap_split_flat (outE crit rt rr) (mandKey crit rt) (keptKeys crit rt rr) (ents b.tipNames b)
+    (fun e _ => outE_split crit rt rr e)
+  have hp := hperm.trans hsplit
+  have hsub := flatMap_sublist (keptKeys crit rt rr) (optKeys crit rt) (ents b.tipNames b)
+    (fun e _ => keptKeys_sublist crit rt rr e)
+  have h3 := msub_append_of_perm _ _ _ hp
+  have h4 := msub_of_perm_sublist _ _ _ (mdiff_perm_append _ _ _ hp) hsub
+  unfold collapseOK
+  simp only [h1, h2, h3, h4, Bool.and_self]
+
+end Gotree.C07
+
+namespace Gotree.C07
+open Gotree
+
+/- ## bridges between the Spec's traversal and the (flagged) observation lists -/
+
 def Ent.tupP (e : Ent) : Tup × Bool := (e.tup, e.prot)
 def obsTupP (x : Obs FB × Bool) : Tup × Bool := (obsTup x.1, x.2)
 
@@ -59,60 +158,236 @@ theorem ents_tupP (all : List String) (t : T) (h1 : t.kids.length ≠ 1) :
   rw [this]
   exact entsL_tupP all true _ t.kids
 
-/-- OPTIONAL part on flagged tuples -/
-def optT (crit : Crit) (u : Tup × Bool) : Option Key :=
-  if !u.1.2.2.2.1 && holdsT crit u.1 && u.2 then some (keyT u.1) else none
+/-- `outE` on flagged tuples -/
+def outT (crit : Crit) (rt rr : Bool) (u : Tup × Bool) : Option Key :=
+  if u.1.2.2.2.1 then some (if rt && holdsT crit u.1 then (u.1.1, 0, u.1.2.2.1, u.1.2.2.2.2.1) else keyT u.1)
+  else if holdsT crit u.1 && !(u.2 && !rr) then none else some (keyT u.1)
 
-theorem split_keepG (crit : Crit) (rt : Bool) (x : Obs FB × Bool) :
-    ((keepG (critV crit) rt x).map (fun y => keyT (obsTup y.1))).toList =
-      (mandT crit rt (obsTup x.1)).toList ++ (optT crit (obsTupP x)).toList := by
+theorem outE_tupP (crit : Crit) (rt rr : Bool) (e : Ent) : outE crit rt rr e = outT crit rt rr e.tupP := by
+  unfold outE outT
+  rw [holds_tup]
+  rfl
+
+theorem outT_keepG (crit : Crit) (rt : Bool) (x : Obs FB × Bool) :
+    (keepG (critV crit) rt x).map (fun y => keyT (obsTup y.1)) = outT crit rt false (obsTupP x) := by
   obtain ⟨⟨fb, e, tip, d⟩, prot⟩ := x
-  unfold keepG mandT optT obsTupP
+  unfold keepG outT obsTupP
   rw [holdsT_obsTup]
   cases hc : critV crit (fb, e, tip) <;> cases tip <;> cases prot <;> cases rt <;> simp [keyT, obsTup, zeroLen]
 
+theorem outT_keepV (crit : Crit) (rt : Bool) (x : Obs FB × Bool) :
+    (keepV (critV crit) rt x.1).map (fun y => keyT (obsTup y)) = outT crit rt true (obsTupP x) := by
+  obtain ⟨⟨fb, e, tip, d⟩, prot⟩ := x
+  unfold keepV outT obsTupP
+  rw [holdsT_obsTup]
+  cases hc : critV crit (fb, e, tip) <;> cases tip <;> cases prot <;> cases rt <;> simp [keyT, obsTup, zeroLen]
+
+theorem ents_out (crit : Crit) (rt rr : Bool) (all : List String) (b : T) (hb1 : b.kids.length ≠ 1) :
+    (ents all b).filterMap (outE crit rt rr) = (obsGRoot (FF all) b).filterMap (fun x => outT crit rt rr (obsTupP x)) := by
+  have h0 : (ents all b).filterMap (outE crit rt rr) = ((ents all b).map Ent.tupP).filterMap (outT crit rt rr) := by
+    rw [List.filterMap_map]
+    congr 1
+    funext e
+    exact outE_tupP crit rt rr e
+  rw [h0, ents_tupP _ b hb1, List.filterMap_map]; rfl
+
+theorem ents_keysG (all : List String) (a : T) (ha1 : a.kids.length ≠ 1) :
+    (ents all a).map Ent.key = (obsGRoot (FF all) a).map (fun y => keyT (obsTup y.1)) := by
+  have := ents_tupP all a ha1
+  have h2 : (ents all a).map Ent.key = ((ents all a).map Ent.tupP).map (fun u => keyT u.1) := by
+    rw [List.map_map]; rfl
+  rw [h2, this, List.map_map]; rfl
+
+/-- without `removeRoot`: from `collapse_exact_general` -/
 theorem collapseOK_of_obsG (crit : Crit) (rt : Bool) (b a : T)
     (hb1 : b.kids.length ≠ 1) (ha1 : a.kids.length ≠ 1)
     (htips : a.tipNames.Perm b.tipNames) (hname : a.d = b.d)
     (hobs : (obsGRoot (FF b.tipNames) a).Perm ((obsGRoot (FF b.tipNames) b).filterMap (keepG (critV crit) rt))) :
     collapseOK crit rt b a = true := by
-  rw [collapseOK_eq]
-  have hm : (ents b.tipNames b).filterMap (mandE crit rt) =
-      (obsGRoot (FF b.tipNames) b).filterMap (fun x => mandT crit rt (obsTup x.1)) := by
-    have h0 : (ents b.tipNames b).filterMap (mandE crit rt) =
-        ((ents b.tipNames b).map Ent.tupP).filterMap (fun u => mandT crit rt u.1) := by
-      have := mand_eq crit rt (ents b.tipNames b)
-      unfold mandE
-      rw [this, List.filterMap_map, List.filterMap_map]; rfl
-    rw [h0, ents_tupP _ b hb1, List.filterMap_map]; rfl
-  have ho : (ents b.tipNames b).filterMap (optE crit) =
-      (obsGRoot (FF b.tipNames) b).filterMap (fun x => optT crit (obsTupP x)) := by
-    have h0 : (ents b.tipNames b).filterMap (optE crit) =
-        ((ents b.tipNames b).map Ent.tupP).filterMap (optT crit) := by
-      rw [List.filterMap_map]
-      congr 1
-      funext e
-      simp only [Function.comp, optE, optT, Ent.tupP, holds_tup]
-      rfl
-    rw [h0, ents_tupP _ b hb1, List.filterMap_map]; rfl
-  have hkeys : (ents b.tipNames a).map Ent.key = (obsGRoot (FF b.tipNames) a).map (fun y => keyT (obsTup y.1)) := by
-    have := ents_tupP b.tipNames a ha1
-    have h2 : (ents b.tipNames a).map Ent.key = ((ents b.tipNames a).map Ent.tupP).map (fun u => keyT u.1) := by
+  apply collapseOK_of_out crit rt false b a htips hname
+  rw [ents_out _ _ _ _ b hb1, ents_keysG _ a ha1]
+  refine (hobs.map _).trans (List.Perm.of_eq ?_)
+  rw [List.map_filterMap]
+  apply filterMap_congr'
+  intro x _
+  exact outT_keepG crit rt x
+
+/-- every selected inner branch gone (what `removeRoot` does, and what happens on an unrooted tree):
+    from `collapse_exact` -/
+theorem collapseOK_of_obs' (crit : Crit) (rt : Bool) (b a : T)
+    (hb1 : b.kids.length ≠ 1) (ha1 : a.kids.length ≠ 1)
+    (htips : a.tipNames.Perm b.tipNames) (hname : a.d = b.d)
+    (hobs : (obsT (FF b.tipNames) a).Perm ((obsT (FF b.tipNames) b).filterMap (keepV (critV crit) rt))) :
+    collapseOK crit rt b a = true := by
+  apply collapseOK_of_out crit rt true b a htips hname
+  rw [ents_out _ _ _ _ b hb1]
+  have hk : (ents b.tipNames a).map Ent.key = (obsT (FF b.tipNames) a).map (fun y => keyT (obsTup y)) := by
+    have := ents_tup b.tipNames a ha1
+    have h2 : (ents b.tipNames a).map Ent.key = ((ents b.tipNames a).map Ent.tup).map keyT := by
       rw [List.map_map]; rfl
     rw [h2, this, List.map_map]; rfl
-  rw [hm, ho, hkeys]
-  have hperm : ((obsGRoot (FF b.tipNames) a).map (fun y => keyT (obsTup y.1))).Perm
-      ((obsGRoot (FF b.tipNames) b).filterMap (fun x => mandT crit rt (obsTup x.1)) ++
-       (obsGRoot (FF b.tipNames) b).filterMap (fun x => optT crit (obsTupP x))) := by
-    refine (hobs.map _).trans ?_
-    rw [List.map_filterMap]
-    exact filterMap_split_perm _ _ _ (split_keepG crit rt) _
-  have h3 := msub_append_of_perm _ _ _ hperm
-  have h4 := msub_of_perm _ _ (mdiff_perm_append _ _ _ hperm)
-  have h1 : (sortS a.tipNames == sortS b.tipNames) = true := by
+  rw [hk]
+  refine (hobs.map _).trans (List.Perm.of_eq ?_)
+  have hf : obsT (FF b.tipNames) b = (obsGRoot (FF b.tipNames) b).map Prod.fst := by
+    rw [obsT_kids]; exact (obsGL_fst _ _ _).symm
+  rw [hf, List.filterMap_map, List.map_filterMap]
+  apply filterMap_congr'
+  intro x _
+  exact outT_keepV crit rt x
+
+theorem collapseOK_of_obs (crit : Crit) (rt : Bool) (b a : T)
+    (hb3 : 3 ≤ b.kids.length) (_hns : b.noSingle = true) (ha1 : a.kids.length ≠ 1)
+    (htips : a.tipNames.Perm b.tipNames) (hname : a.d = b.d)
+    (hobs : (obsT (FF b.tipNames) a).Perm ((obsT (FF b.tipNames) b).filterMap (keepV (critV crit) rt))) :
+    collapseOK crit rt b a = true :=
+  collapseOK_of_obs' crit rt b a (by omega) ha1 htips hname hobs
+
+end Gotree.C07
+
+namespace Gotree.C07
+open Gotree
+
+/- ## a root that is a tip -/
+
+/-- the entry of the branch of a tip-root: a tip branch whatever hangs below -/
+def tipRootEnt (all : List String) (e : EdgeD) (c : T) : Ent :=
+  ⟨canonSide all c.leaves, e.len, e.sup, c.isLeaf || true, c.name, true, lightSize all c.leaves, e.id, false⟩
+
+theorem ents_tiproot (all : List String) (d : NodeD) (p : Nat) (e : EdgeD) (c : T) :
+    ents all (.node d p [(e, c)]) = tipRootEnt all e c :: (entsT all c ++ []) := by
+  simp [ents, entsL, tipRootEnt]
+
+theorem holds_tipRootEnt (crit : Crit) (all : List String) (e : EdgeD) (c : T) :
+    crit.holds (tipRootEnt all e c) = critV crit (FF all c.leaves, e, c.isLeaf) := by
+  cases crit <;> rfl
+
+theorem below_out (crit : Crit) (rt rr : Bool) (all : List String) (c : T) :
+    (entsT all c).filterMap (outE crit rt rr) =
+      (obsT (FF all) c).filterMap (fun x => outT crit rt true (obsTupP (x, false))) := by
+  have h0 : (entsT all c).filterMap (outE crit rt rr) = ((entsT all c).map Ent.tupP).filterMap (outT crit rt rr) := by
+    rw [List.filterMap_map]
+    congr 1
+    funext e
+    exact outE_tupP crit rt rr e
+  rw [h0, entsT_tupP, List.filterMap_map, List.filterMap_map]
+  apply filterMap_congr'
+  intro x _
+  simp [Function.comp, outT, obsTupP]
+
+theorem below_keys (all : List String) (c : T) :
+    (entsT all c).map Ent.key = (obsT (FF all) c).map (fun y => keyT (obsTup y)) := by
+  have h2 : (entsT all c).map Ent.key = ((entsT all c).map Ent.tup).map keyT := by
+    rw [List.map_map]; rfl
+  rw [h2, entsT_tup, List.map_map]; rfl
+
+theorem collapseOK_tiproot_of (crit : Crit) (rt rr : Bool) (d : NodeD) (p : Nat) (e e' : EdgeD) (c c' : T)
+    (he' : e' = if crit.holds (tipRootEnt (T.node d p [(e, c)]).tipNames e c) = true ∧ rt = true then zeroLen e else e)
+    (ho : (obsT (FF (T.node d p [(e, c)]).tipNames) c').Perm
+      ((obsT (FF (T.node d p [(e, c)]).tipNames) c).filterMap (keepV (critV crit) rt)))
+    (hl : c'.leaves.Perm c.leaves) (hd : c'.d = c.d) :
+    collapseOK crit rt (.node d p [(e, c)]) (.node d p [(e', c')]) = true := by
+  generalize hall : (T.node d p [(e, c)]).tipNames = all at *
+  have htips : (T.node d p [(e', c')]).tipNames.Perm (T.node d p [(e, c)]).tipNames := by
+    simp only [T.tipNames, T.kids_node, List.length_cons, List.length_nil, leavesL, T.name, T.d_node]
+    exact (List.Perm.refl _).append (hl.append (List.Perm.refl _))
+  rw [hall] at htips
+  have hcall := collapseOK_of_out crit rt rr (.node d p [(e, c)]) (.node d p [(e', c')])
+  rw [hall] at hcall
+  apply hcall htips rfl
+  rw [ents_tiproot, ents_tiproot]
+  simp only [List.append_nil, List.map_cons, List.filterMap_cons]
+  have hside : canonSide all c'.leaves = canonSide all c.leaves := canonSide_permInv all _ _ hl
+  have hname : c'.name = c.name := by unfold T.name; rw [hd]
+  have hhead : outE crit rt rr (tipRootEnt all e c) = some (tipRootEnt all e' c').key := by
+    subst he'
+    unfold outE
+    have ht : (tipRootEnt all e c).tip = true := by simp [tipRootEnt]
+    rw [ht]
+    simp only [if_true]
+    cases hh : crit.holds (tipRootEnt all e c) <;> cases rt <;>
+      simp [tipRootEnt, Ent.key, Ent.key0, hside, hname, zeroLen]
+  rw [hhead]
+  refine List.Perm.cons _ ?_
+  rw [below_keys, below_out]
+  refine (ho.map _).trans (List.Perm.of_eq ?_)
+  rw [List.map_filterMap]
+  apply filterMap_congr'
+  intro x _
+  exact outT_keepV crit rt (x, false)
+
+end Gotree.C07
+
+namespace Gotree.C07
+open Gotree
+
+/- ## the resolve oracle on a tree whose root is a tip -/
+
+theorem entsT_keys (all : List String) (c : T) : (entsT all c).map Ent.key = (RT (FF all) c).map keyR := by
+  have h2 : (entsT all c).map Ent.key = ((entsT all c).map Ent.tup).map keyT := by
+    rw [List.map_map]; rfl
+  rw [h2, entsT_tup]
+  unfold RT
+  rw [List.map_map, List.map_map]; rfl
+
+theorem entsT_kts (all : List String) (c : T) :
+    (entsT all c).map (fun e => (e.key, e.tip)) = (RT (FF all) c).map ktR := by
+  have h2 : (entsT all c).map (fun e => (e.key, e.tip)) = ((entsT all c).map Ent.tup).map (fun u => (keyT u, u.2.2.2.1)) := by
+    rw [List.map_map]; rfl
+  rw [h2, entsT_tup]
+  unfold RT
+  rw [List.map_map, List.map_map]; rfl
+
+theorem resolveOK_tiproot_of (d : NodeD) (p : Nat) (e : EdgeD) (c c1 : T)
+    (hl : c1.leaves.Perm c.leaves) (hd : c1.d = c.d)
+    (ex : List (ObsR FB)) (hnew : ∀ x ∈ ex, IsNew x)
+    (hobs : (RT (FF (T.node d p [(e, c)]).tipNames) c1).Perm (RT (FF (T.node d p [(e, c)]).tipNames) c ++ ex))
+    (hdist : ∀ x y : String, (T.node d p [(e, c1)]).dist x y = (T.node d p [(e, c)]).dist x y)
+    (hdeg3 : deg3 (.node d p [(e, c1)]) = true) :
+    resolveOK (.node d p [(e, c)]) (.node d p [(e, c1)]) = true := by
+  have htips : (T.node d p [(e, c1)]).tipNames.Perm (T.node d p [(e, c)]).tipNames := by
+    simp only [T.tipNames, T.kids_node, List.length_cons, List.length_nil, leavesL, T.name, T.d_node]
+    exact (List.Perm.refl _).append (hl.append (List.Perm.refl _))
+  unfold resolveOK
+  simp only
+  generalize hall : (T.node d p [(e, c)]).tipNames = all at *
+  rw [ents_tiproot, ents_tiproot]
+  simp only [List.append_nil, List.map_cons]
+  have hside : canonSide all c1.leaves = canonSide all c.leaves := canonSide_permInv all _ _ hl
+  have hname : c1.name = c.name := by unfold T.name; rw [hd]
+  have hk : (tipRootEnt all e c1).key = (tipRootEnt all e c).key := by simp [tipRootEnt, Ent.key, hside, hname]
+  have ht : (tipRootEnt all e c1).tip = (tipRootEnt all e c).tip := by simp [tipRootEnt]
+  rw [hk, ht, entsT_keys, entsT_keys, entsT_kts, entsT_kts]
+  have h1 : (sortS (T.node d p [(e, c1)]).tipNames == sortS all) = true := by
     rw [sortS_perm_eq htips]; exact beq_self_eq_true _
-  have h2 : (a.name == b.name) = true := by
-    unfold T.name; rw [hname]; exact beq_self_eq_true _
-  simp only [h1, h2, h3, h4, Bool.and_self]
+  have h2 : ((T.node d p [(e, c1)]).name == (T.node d p [(e, c)]).name) = true := beq_self_eq_true _
+  have h3 : msub ((tipRootEnt all e c).key :: (RT (FF all) c).map keyR)
+      ((tipRootEnt all e c).key :: (RT (FF all) c1).map keyR) = true := by
+    apply msub_append_of_perm _ (ex.map keyR)
+    simp only [List.cons_append]
+    refine List.Perm.cons _ ?_
+    rw [← List.map_append]; exact hobs.map keyR
+  have h4 : ((mdiff (((tipRootEnt all e c).key, (tipRootEnt all e c).tip) :: (RT (FF all) c1).map ktR)
+      (((tipRootEnt all e c).key, (tipRootEnt all e c).tip) :: (RT (FF all) c).map ktR)).all
+      fun x => x.1.2.1 == 0 && x.1.2.2.1 == NIL && !x.2) = true := by
+    have hp : (mdiff (((tipRootEnt all e c).key, (tipRootEnt all e c).tip) :: (RT (FF all) c1).map ktR)
+        (((tipRootEnt all e c).key, (tipRootEnt all e c).tip) :: (RT (FF all) c).map ktR)).Perm (ex.map ktR) := by
+      apply mdiff_perm_append
+      simp only [List.cons_append]
+      refine List.Perm.cons _ ?_
+      rw [← List.map_append]; exact hobs.map ktR
+    rw [hp.all_eq, List.all_eq_true]
+    intro x hx
+    obtain ⟨y, hy, rfl⟩ := List.mem_map.mp hx
+    obtain ⟨e1, e2, _, e4, _⟩ := hnew y hy
+    simp [ktR, keyR, e1, e2, e4]
+  have h5 : ((T.node d p [(e, c1)]).distMatrix == (T.node d p [(e, c)]).distMatrix) = true := by
+    have : (T.node d p [(e, c1)]).distMatrix = (T.node d p [(e, c)]).distMatrix := by
+      unfold T.distMatrix
+      rw [hall]
+      simp only [sortS_perm_eq htips, hdist]
+    rw [this]; exact beq_self_eq_true _
+  have h6 : (!((T.node d p [(e, c)]).noSingle && decide (2 ≤ (T.node d p [(e, c)]).kids.length)) ||
+      (T.node d p [(e, c1)]).binary) = true := by simp
+  simp only [h1, h2, h3, h4, h5, h6, hdeg3, Bool.and_self]
 
 end Gotree.C07
